@@ -153,7 +153,9 @@ def render_moltype(mt):
             # second residue is a site built from the first two atoms of the first residue (no bond, no constraint)
             vs2.append(f"{first[r2]} {first[r1]} {first[r1] + 1} 1 0.5")
             continue
-        bonds.append(f"{first[r1]} {first[r2]} 1 0.35 1000")
+        # which atoms carry the inter-residue bond: the first ones unless the molecule type says otherwise
+        i, j = (mt.get("edge_atoms") or {}).get(f"{r1}-{r2}", (0, 0))
+        bonds.append(f"{first[r1] + i} {first[r2] + j} 1 0.35 1000")
     if bonds:
         lines.append("[ bonds ]")
         lines += bonds
